@@ -310,7 +310,7 @@ def run(ctx):
                      "open bonds, identity wires, negative/colliding ids) x random operation sequences (length<=12; rename_tensor, "
                      "rename_bond, transpose incl. refused ones, merge with colliding ids / shared datarefs equal+unequal / joins "
                      "reusing axes / out-of-range joins). non-trivial = sequence with >=1 accepted operation on a network with >=1 bond")
-    ctx.lib(["TN/TNCheck", "TN/TNProofs"])
+    ctx.lib(["TN/TNCheck", "TN/TNCounts"])
     ctx.props()
     rng = ctx.rng
     cases = []
